@@ -282,11 +282,11 @@ func r09_3(c *Ctx, r *Report) {
 // functions that may consult the wall clock: the "today" constructors and the
 // end-year bound of the reverse eight-character lookup (the property allows both).
 var allowedClockUsers = map[string]string{
-	"calendar.NewSolarWeek":     "constructor for the current week",
-	"calendar.NewSolarMonth":    "constructor for the current month",
-	"calendar.NewSolarSeason":   "constructor for the current season",
-	"calendar.NewSolarHalfYear": "constructor for the current half-year",
-	"calendar.NewSolarYear":     "constructor for the current year",
+	"calendar.NewSolarWeek":                       "constructor for the current week",
+	"calendar.NewSolarMonth":                      "constructor for the current month",
+	"calendar.NewSolarSeason":                     "constructor for the current season",
+	"calendar.NewSolarHalfYear":                   "constructor for the current half-year",
+	"calendar.NewSolarYear":                       "constructor for the current year",
 	"calendar.ListSolarFromBaZiBySectAndBaseYear": "search window ends at the current year",
 }
 
